@@ -106,8 +106,10 @@ example : atomic Gen.Grammar.delimiters "{f(x, {y}) + 1}".toList = true := by de
 
 /-! ### argument quoting -/
 
-/-- **arg_format_roundtrip.**  For every such value, `Arg.assign` applied to what `_arg_format`
-    printed gives the value back, and the printed text is a single token for `split`.
+/-- **arg_format_roundtrip.**  For every value satisfying `okValue`, `Arg.assign` applied to what
+    `_arg_format` printed gives the value back (the substantive half), and the printed text is a single
+    token for `split` (this half re-reads the scanner clause of `okValue`; the syntactic sufficient
+    condition is `C06Nested.okValue_of_nested`).
     Excluded by `okValue` (and covered by the oracle's hypothesis-boundary stream): values that
     start with `{` / `"` or are empty (known finding C06-e), unbalanced values, and `a=b`. -/
 theorem arg_format_roundtrip (ds : List Char) (hb : ds.contains '{' = false) (v : Str)
@@ -547,10 +549,10 @@ theorem normArgs_idem (a : List (Option Str)) : normArgs (normArgs a) = normArgs
         | nil => cases y <;> cases rest' <;> simp [normArgs] at hn
         | cons z zs => rw [hn] at ih; simp [normArgs, ih]
 
-/-- **print_idempotent (component level).**  If re-parsing the printed component gives a component
-    that the spec identifies with the original up to the argument normalisation (same name, nodes,
-    keyword, option string, `normArgs`-equal arguments), then printing it again gives the same text. -/
-theorem print_idempotent (g : Grammar) (c c' : Cpt)
+/-- HELPER (not the idempotence claim): the printer does not distinguish an argument list from its
+    `normArgs` normal form -- `fmtArgs_normArgs` lifted to `printCpt`.  It does not mention the parser; the
+    idempotence of print ∘ parse ∘ print is `C06Line.print_parse_print_idempotent_partial`. -/
+theorem print_normArgs_invariant (g : Grammar) (c c' : Cpt)
     (hname : c'.name = c.name) (hty : c'.ctype = c.ctype) (hnodes : c'.nodes = c.nodes)
     (hargs : c'.args = normArgs c.args) (hkp : c'.kwpos = c.kwpos) (hkw : c'.kw = c.kw)
     (hopts : c'.opts = c.opts) (hstr : c'.string = c.string) :
@@ -650,7 +652,7 @@ theorem print_parse_args (ds : List Char) (hb : ds.contains '{' = false) (h0 : d
 
 example : trailingNoneOK [⟨['V'], .value, true, some ['n','a','m','e']⟩, ⟨['I','C'], .value, true, none⟩] [some ['3'], none] = true := by decide
 
-/-- the elided default: when the sole printed argument was dropped because it equals the component
+/-- HELPER.  The elided default: when the sole printed argument was dropped because it equals the component
     name, the parser's default restores it **provided the parameter's default is `name`**
     (`SW`: default `0` -- known finding C06-b; covered by the oracle's `value-equals-name` stream) -/
 theorem elided_default_restored (p : Param) (relname : Str) (hd : p.default = some ['n','a','m','e']) :
